@@ -9,6 +9,19 @@ Import GRing.Theory Num.Theory.
 Local Open Scope ring_scope.
 
 (* ------------------------------------------------------------------ *)
+(** * The shape of the code, written by hand.  Gen/Kalman.v contains ONLY the two returned
+      values of `compute_process_matrices` as fully inlined terms; the intermediates are named
+      here in terms of the specification (Van Loan's block matrix [vl_mx]). *)
+Section CodeShape.
+Variable F : fieldType.
+Variable n : nat.
+Variable expm : 'M[F]_(n + n) -> 'M[F]_(n + n).
+Variables (A Q : 'M[F]_n) (dt : F).
+Definition cpm_H0 : 'M[F]_(n + n) := vl_mx A Q.
+Definition cpm_H1 : 'M[F]_(n + n) := expm (dt *: cpm_H0).
+End CodeShape.
+
+(* ------------------------------------------------------------------ *)
 (** * Characterising lemmas: the only place where the generated
       definitions are unfolded. *)
 Section Characterise.
